@@ -38,7 +38,8 @@ async def _drive(case):
     from frequenz.sdk.timeseries._base_types import Bounds, SystemBounds
 
     base_ts = datetime.now(tz=timezone.utc)
-    W = Power.from_watts
+    M.set_scale(case)
+    W = lambda x: Power.from_watts(x * M.SCALE)
     loop = asyncio.get_running_loop()
     proposals, subs, reqs, results, boundsch = (Broadcast(name=n) for n in "psrxb")
     registry = ChannelRegistry(name="verif")
@@ -285,7 +286,7 @@ def gen_case(rng, maxlen=16):
             evs.append({"t": "sub", "op": rng.random() < 0.5, "q": rng.choice([-2, 0, 1, 2, 3, 7]), "gap": gap})
         else:
             evs.append({"t": "sleep", "dt": rng.choice([1, 8, 80, 240, 400, 481, 500])})
-    return {"events": evs}
+    return M.gen_scale(rng, {"events": evs})
 
 
 def boundary_cases():
@@ -303,10 +304,10 @@ def boundary_cases():
 def shrink_case(case):
     ev = case["events"]
     for i in range(1, len(ev)):
-        yield {"events": ev[:i] + ev[i + 1:]}
+        yield {**case, "events": ev[:i] + ev[i + 1:]}
     for i, e in enumerate(ev):
         if e.get("gap") is False:
-            yield {"events": ev[:i] + [{**e, "gap": True}] + ev[i + 1:]}
+            yield {**case, "events": ev[:i] + [{**e, "gap": True}] + ev[i + 1:]}
 
 
 class BurstStream(Stream):
@@ -341,6 +342,8 @@ class BurstStream(Stream):
 
     def labels(self, case, obs):
         out = [f"events={min(len(case['events']), 25)}"]
+        if case.get("scale", 1) != 1:
+            out.append("fractional_or_scaled_watts")
         if any(e.get("gap") is False for e in case["events"]):
             out.append("back_to_back_injection")
         kinds = [h["kind"] for h in obs["handlers"]]
